@@ -41,6 +41,9 @@ pub enum SOp {
     Cnf(Vec<Vec<(u8, bool)>>),
     Expr(crate::exprgen::Ex),
     Plan(crate::exprgen::Pl),
+    /// sibling operations on the same (f, v, g) in a scrambled order (see BOp::Siblings); with `ite_family` false only
+    /// condition / exists / and / or take part
+    Siblings(u16, u8, u16, u16, bool),
 }
 
 impl SOp {
@@ -61,6 +64,7 @@ impl SOp {
             SOp::AndDisjoint(..) | SOp::AndDisjointNeg(..) => "and",
             SOp::OrDisjoint(..) | SOp::OrDisjointNeg(..) => "or",
             SOp::Dense(..) => "dense",
+            SOp::Siblings(..) => "siblings",
             SOp::Cnf(..) => "compile_cnf",
             SOp::Expr(..) => "compile_logical_expr",
             SOp::Plan(..) => "compile_plan",
@@ -86,6 +90,7 @@ pub fn sop_strategy_ext(with_ite_family: bool, with_rebuild: bool, with_dense: b
         (2, (idx_strategy(), idx_strategy(), any::<bool>(), any::<bool>()).prop_map(|(a, b, x, y)| SOp::AndDisjointNeg(a, b, x, y)).boxed()),
         (1, (idx_strategy(), idx_strategy(), any::<bool>(), any::<bool>()).prop_map(|(a, b, x, y)| SOp::OrDisjointNeg(a, b, x, y)).boxed()),
     ];
+    v.push((2, (idx_strategy(), any::<u8>(), idx_strategy(), any::<u16>()).prop_map(move |(f, x, g, s)| SOp::Siblings(f, x, g, s, with_ite_family)).boxed()));
     if with_ite_family {
         v.push((3, (idx_strategy(), idx_strategy()).prop_map(|(a, b)| SOp::Xor(a, b)).boxed()));
         v.push((3, (idx_strategy(), idx_strategy()).prop_map(|(a, b)| SOp::Iff(a, b)).boxed()));
@@ -124,6 +129,11 @@ pub struct SddRun<'a, B: SddBuilder<'a>> {
     /// embedded: oracle variable i stands for builder label `labels[i]` (the vtree has more leaves than these);
     /// otherwise a label is its own oracle variable
     pub emb: bool,
+    /// see BddRun: a sibling result that does not denote its oracle function (C03's concern), all results of the last
+    /// Siblings operation, and the switch that makes a Siblings operation compute one of its results only
+    pub sibling_fault: Option<(String, String)>,
+    pub last_siblings: Vec<(&'static str, SddPtr<'a>, Tt)>,
+    pub siblings_only: Option<usize>,
 }
 
 impl<'a, B: SddBuilder<'a>> SddRun<'a, B> {
@@ -134,7 +144,7 @@ impl<'a, B: SddBuilder<'a>> SddRun<'a, B> {
         for v in sorted.iter() {
             pool.push((b.var(VarLabel::new_usize(*v), true), Tt::var(*v)));
         }
-        SddRun { b, pool, labels: sorted, forced_operands: None, emb: false }
+        SddRun { b, pool, labels: sorted, forced_operands: None, emb: false, sibling_fault: None, last_siblings: Vec::new(), siblings_only: None }
     }
 
     /// the oracle's variables embedded in a builder over a larger vtree: oracle variable i is the i-th smallest of
@@ -153,7 +163,7 @@ impl<'a, B: SddBuilder<'a>> SddRun<'a, B> {
         for (i, l) in sorted.iter().enumerate() {
             pool.push((b.var(VarLabel::new_usize(*l), true), Tt::var(i)));
         }
-        SddRun { b, pool, labels: sorted, forced_operands: None, emb: true }
+        SddRun { b, pool, labels: sorted, forced_operands: None, emb: true, sibling_fault: None, last_siblings: Vec::new(), siblings_only: None }
     }
 
     /// oracle variable of a usable label
@@ -221,6 +231,52 @@ impl<'a, B: SddBuilder<'a>> SddRun<'a, B> {
                 let a = self.at(*a);
                 let v = self.v(*v);
                 (b.exists(self.pool[a].0, VarLabel::new_usize(v)), self.pool[a].1.exists(self.o(v)), vec![a])
+            }
+            SOp::Siblings(f, v, g, seed, ite_family) => {
+                let (f, g) = (self.at(*f), self.at(*g));
+                let v = self.v(*v);
+                let ov = self.o(v);
+                let (pf, tf) = self.pool[f];
+                let (pg, tg) = self.pool[g];
+                let l = VarLabel::new_usize(v);
+                let x = b.var(l, true);
+                let tx = Tt::var(ov);
+                let kinds: Vec<usize> = if *ite_family { (0..10).collect() } else { vec![0, 1, 2, 8, 9] };
+                let mut order = kinds;
+                order.sort_by_key(|k| crate::engine::splitmix((*seed as u64) << 8 | *k as u64));
+                let take = (4 + (*seed as usize % 7)).min(order.len());
+                let list: Vec<usize> = order.into_iter().take(take).collect();
+                let list: Vec<usize> = match self.siblings_only {
+                    Some(j) => vec![list[j.min(list.len() - 1)]],
+                    None => list,
+                };
+                let mut out: Vec<(&'static str, SddPtr<'a>, Tt)> = Vec::new();
+                for k in list {
+                    out.push(match k {
+                        0 => ("condition(f, v, true)", b.condition(pf, l, true), tf.cofactor(ov, true)),
+                        1 => ("condition(f, v, false)", b.condition(pf, l, false), tf.cofactor(ov, false)),
+                        2 => ("exists(f, v)", b.exists(pf, l), tf.exists(ov)),
+                        3 => ("compose(f, v, g)", b.compose(pf, l, pg), tf.compose(ov, tg)),
+                        4 => ("ite(f, x_v, g)", b.ite(pf, x, pg), tf.ite(tx, tg)),
+                        5 => ("ite(x_v, f, g)", b.ite(x, pf, pg), tx.ite(tf, tg)),
+                        6 => ("iff(f, x_v)", b.iff(pf, x), tf.iff(tx)),
+                        7 => ("xor(f, x_v)", b.xor(pf, x), tf.xor(tx)),
+                        8 => ("and(f, x_v)", b.and(pf, x), tf.and(tx)),
+                        _ => ("or(f, !x_v)", b.or(pf, b.negate(x)), tf.or(tx.not())),
+                    });
+                }
+                for (i, (what, p, t)) in out.iter().enumerate() {
+                    let got = crate::walk::sdd_tt(*p);
+                    if got != *t && self.sibling_fault.is_none() {
+                        self.sibling_fault = Some((
+                            what.to_string(),
+                            format!("{} as call {} of {:?} on one (f, v, g) = (entry {}, label {}, entry {}) denotes {:?}, expected {:?}", what, i + 1, out.iter().map(|x| x.0).collect::<Vec<_>>(), f, v, g, got, t),
+                        ));
+                    }
+                }
+                let last = *out.last().unwrap();
+                self.last_siblings = out;
+                (last.1, last.2, vec![f, g])
             }
             SOp::Compose(f, v, g) => {
                 let (f, g) = (self.at(*f), self.at(*g));
